@@ -212,7 +212,7 @@ func checkC13(p *Prog, r *Report) {
 			switch {
 			case nil == vstore:
 				rPin.Bad(c, posOf(st), "InsecureSkipVerify without VerifyConnection: any server is accepted")
-			case nil == verifier || resolveCell(vstore.Val) != ssa.Value(verifier):
+			case nil == verifier || (resolveCell(vstore.Val) != ssa.Value(verifier) && !wrapsVerifier(vstore.Val, verifier)):
 				rPin.Bad(c, posOf(vstore), "VerifyConnection is %s, not the verifier built from this call's fingerprint", rootsString(valueRoots(vstore.Val, nil)))
 			case !edgeDominates(fpIf, setSucc, st):
 				rPin.Bad(c, posOf(st), "certificate verification is switched off outside the fingerprint-configured branch")
@@ -955,4 +955,50 @@ func checkC13Fallback(p *Prog, r *Report, ru *Rule) {
 	if 0 == n {
 		ru.Unproven("cmd/simpleshell:fingerprint-choice", token.NoPos, "no place found where the compiled-in fingerprint is chosen among alternatives")
 	}
+}
+
+// wrapsVerifier: v is a function literal which hands its own argument to the
+// verifier and returns, on every path, exactly what the verifier returned
+// (logging the outcome in between, say).
+func wrapsVerifier(v, verifier ssa.Value) bool {
+	lit, binds := closureOf(resolveCell(v))
+	if nil == lit || nil == lit.Parent() || 1 != len(lit.Params) || nil == lit.Blocks {
+		return false
+	}
+	_ = binds
+	var call *ssa.Call
+	n := 0
+	eachInstr(lit, func(i ssa.Instruction) {
+		c, ok := i.(*ssa.Call)
+		if !ok || c.Common().IsInvoke() || nil != c.Common().StaticCallee() {
+			return
+		}
+		if resolveCell(resolveFree(stripConv(resolveCell(c.Common().Value), false))) != verifier {
+			return
+		}
+		n++
+		call = c
+	})
+	if 1 != n || 1 != len(call.Common().Args) || resolveCell(call.Common().Args[0]) != ssa.Value(lit.Params[0]) {
+		return false
+	}
+	ok := true
+	nret := 0
+	eachInstr(lit, func(i ssa.Instruction) {
+		ret, isRet := i.(*ssa.Return)
+		if !isRet {
+			return
+		}
+		nret++
+		if 1 != len(ret.Results) {
+			ok = false
+			return
+		}
+		for _, l := range phiLeaves(ret.Results[0]) {
+			if l.V != ssa.Value(call) {
+				ok = false
+			}
+		}
+	})
+	return ok && nret > 0
 }
